@@ -12,6 +12,7 @@ Does not decide: equality of whole packets with a reference encoder for every re
 from __future__ import annotations
 
 import ast
+import re
 
 from ..prog import AnalysisError, ClassInfo, FuncInfo, dotted, unparse
 from ..layout import writer_table, ReaderEval, Bits, Record, flatten
@@ -241,18 +242,17 @@ def check_enums(ctx):
     # decoder's HT -> HST enumeration dispatch
     fi = P.func("geonet.common_header.CommonHeader.decode_from_int")
     found = {}
+    dfl = ctx.flows.get(fi)
+    # every construction of a sub-type enumeration: under which `ht == HeaderType.X` fact does it happen?
     for node in ast.walk(fi.node):
-        if isinstance(node, ast.If):
-            other = sem.eq_other(node.test, lambda e: (dotted(e) or "").startswith("HeaderType."))
-            if other is None:
+        if isinstance(node, ast.Call) and (dotted(node.func) or "").endswith("HST") and id(node) in dfl.stmt_of:
+            try:
+                facts = sem.facts(dfl, node, expanded=False)
+            except AnalysisError:
                 continue
-            d = dotted(node.test.comparators[0]) or ""
-            if not d.startswith("HeaderType."):
-                d = dotted(node.test.left) or ""
-            if d.startswith("HeaderType."):
-                for st in node.body:
-                    if isinstance(st, ast.Assign) and isinstance(st.value, ast.Call):
-                        found[d.split(".")[1]] = dotted(st.value.func)
+            hts = sorted({m for a_ in facts if a_.startswith("eq(") for m in re.findall(r"HeaderType\.(\w+)", a_)})
+            if len(hts) == 1:
+                found[hts[0]] = dotted(node.func)
     for ht, hst in S.HST_OF_HT.items():
         ctx.ob("C02.enums", fi.short(), f"hst-dispatch:{ht}", found.get(ht) == hst,
                f"HT {ht}: sub-type decoded with {found.get(ht)!r}, expected {hst}", fi.loc)
@@ -488,10 +488,14 @@ def _operand_kind(ctx, fi, o, info: dict) -> str:
     P = ctx.prog
     if isinstance(o, ast.IfExp):
         t = o.test
+        neg = False
+        while isinstance(t, ast.UnaryOp) and isinstance(t.op, ast.Not):
+            t, neg = t.operand, not neg
         if isinstance(t, ast.Compare) and len(t.ops) == 1 and isinstance(t.left, ast.Constant) \
-                and isinstance(t.comparators[0], ast.Constant) and isinstance(t.ops[0], (ast.Is, ast.IsNot)):
+                and isinstance(t.comparators[0], ast.Constant) and isinstance(t.ops[0], (ast.Is, ast.IsNot, ast.Eq, ast.NotEq)):
             same = t.left.value is t.comparators[0].value
-            take = o.body if (same == isinstance(t.ops[0], ast.Is)) else o.orelse
+            truth = (same == isinstance(t.ops[0], (ast.Is, ast.Eq))) != neg
+            take = o.body if truth else o.orelse
             return "+".join(_operand_kind(ctx, fi, x, info) for x in _concat_operands(take))
         a = "+".join(_operand_kind(ctx, fi, x, info) for x in _concat_operands(o.body))
         b = "+".join(_operand_kind(ctx, fi, x, info) for x in _concat_operands(o.orelse))
